@@ -21,28 +21,42 @@
 #define RS_NSYM 2
 #define RS_NENV 4
 static JanetCompiler rs_c;
-static JanetScope rs_sc[3];
+/* three separate scope objects (not an array: every access below has a constant scope number after unrolling) */
+static JanetScope rs_sc0, rs_sc1, rs_sc2;
+static JanetScope *const rs_scp[3] = { &rs_sc0, &rs_sc1, &rs_sc2 };
+#define rs_sc(i) (*rs_scp[i])
 static int rs_depth;
-static struct { int32_t cap, cnt; SymPair data[RS_NSYM]; } rs_symmem[3];
-static struct { int32_t cap, cnt; JanetEnvRef data[RS_NENV]; } rs_envmem[3];
+typedef struct { int32_t cap, cnt; SymPair data[RS_NSYM]; } rs_symvec;
+typedef struct { int32_t cap, cnt; JanetEnvRef data[RS_NENV]; } rs_envvec;
+static rs_symvec rs_symmem0, rs_symmem1, rs_symmem2;
+static rs_envvec rs_envmem0, rs_envmem1, rs_envmem2;
+static rs_symvec *const rs_symp[3] = { &rs_symmem0, &rs_symmem1, &rs_symmem2 };
+static rs_envvec *const rs_envp[3] = { &rs_envmem0, &rs_envmem1, &rs_envmem2 };
+#define rs_symmem(i) (*rs_symp[i])
+#define rs_envmem(i) (*rs_envp[i])
+static int rs_fdef_expected = -1;
 static int rs_env_used[3];
 static uint8_t rs_sym_a[4], rs_sym_b[4];
 static int rs_errors;
 
 /* scope->envs is NULL until the first reference is added: the first push allocates (vector.c, proved in comp.srcmap.emit);
  * here the block of the scope that is being extended is handed out */
-static int rs_grow_for = -1;
 void *rs_grow_stub(void *v, int32_t increment, int32_t itemsize) {
     __CPROVER_assert(v == (void *)0 && itemsize == (int32_t) sizeof(JanetEnvRef), "harness: only an empty environment vector is allocated (capacity suffices)");
-    int k = nd_int();
-    __CPROVER_assume(k >= 0 && k < 3 && !rs_env_used[k]);
-    rs_env_used[k] = 1; rs_envmem[k].cap = RS_NENV; rs_envmem[k].cnt = 0;
-    return rs_envmem[k].data;
+    /* references are added from the defining function's child down to the current scope: the vector being created is that
+     * of the first function scope below the defining function that has none yet */
+    for (int k = 1; k < 3; k++) if (k > rs_fdef_expected && k < rs_depth && (rs_sc(k).flags & JANET_SCOPE_FUNCTION) && !rs_env_used[k]) {
+        rs_env_used[k] = 1; rs_envmem(k).cap = RS_NENV; rs_envmem(k).cnt = 0;
+        return rs_envmem(k).data;
+    }
+    __CPROVER_assert(0, "harness: an environment vector is created only for a function scope below the defining function");
+    __CPROVER_assume(0);
+    return v;
 }
 static JanetScope *rs_touch_scope; static int32_t rs_touch_reg; static int rs_touches;
 void rs_touch_stub(JanetcRegisterAllocator *ra, int32_t reg) {
     rs_touches++; rs_touch_reg = reg;
-    for (int i = 0; i < 3; i++) if (ra == &rs_sc[i].ua) rs_touch_scope = &rs_sc[i];
+    for (int i = 0; i < 3; i++) if (ra == &rs_sc(i).ua) rs_touch_scope = rs_scp[i];
 }
 const uint8_t *rs_formatc_stub(const char *format, ...) { static uint8_t msg[4]; return msg; }
 /* the global environment */
@@ -60,17 +74,26 @@ int rs_lookup_missing_stub(JanetCompiler *c, const uint8_t *sym, JanetFunction *
 static int rs_lints;
 void rs_lintf_stub(JanetCompiler *c, JanetCompileLintLevel level, const char *format, ...) { rs_lints++; }
 
-static int rs_is_fn(int i) { return (rs_sc[i].flags & JANET_SCOPE_FUNCTION) != 0; }
-static int rs_parent_fn(int i) { for (int k = 2; k >= 0; k--) if (k < i && rs_is_fn(k)) return k; return -1; }
-static int rs_fn_of(int i) { for (int k = 2; k >= 0; k--) if (k <= i && rs_is_fn(k)) return k; return -1; }
-static int32_t rs_envcount(int i) { return janet_v_count(rs_sc[i].envs); }
+/* scalar snapshots of the scopes (taken with constant scope numbers), on which the contract is stated */
+static int rs_fn[3]; static int32_t rs_ecnt[3]; static int32_t rs_eidx[3][RS_NENV];
+static void rs_snapshot(void) {
+    for (int i = 0; i < 3; i++) {
+        rs_fn[i] = i < rs_depth && (rs_sc(i).flags & JANET_SCOPE_FUNCTION) != 0;
+        rs_ecnt[i] = i < rs_depth ? janet_v_count(rs_sc(i).envs) : 0;
+        for (int k = 0; k < RS_NENV; k++) rs_eidx[i][k] = (i < rs_depth && k < rs_ecnt[i]) ? rs_sc(i).envs[k].envindex : -2;
+    }
+}
+static int rs_is_fn(int i) { return rs_fn[i]; }
+static int rs_parent_fn(int i) { return (i == 2 && rs_fn[1]) ? 1 : (i >= 1 ? 0 : -1); }
+static int rs_fn_of(int i) { return (i == 2 && rs_fn[2]) ? 2 : (i >= 1 && rs_fn[1]) ? 1 : 0; }
+static int32_t rs_envcount(int i) { return rs_ecnt[i]; }
 /* Env(F, j): the function scope whose frame environment j of function scope f is at run time; -1 when ill-formed */
 static int rs_env_target(int f, int32_t j) {
     for (int step = 0; step < 3; step++) {
-        if (f < 0 || !rs_is_fn(f)) return -1;
+        if (f < 0 || f > 2 || !rs_fn[f]) return -1;
         int pf = rs_parent_fn(f);
-        if (pf < 0 || j < 0 || j >= rs_envcount(f)) return -1;
-        int32_t e = rs_sc[f].envs[j].envindex;
+        if (pf < 0 || j < 0 || j >= rs_ecnt[f] || j >= RS_NENV) return -1;
+        int32_t e = rs_eidx[f][j];
         if (e == -1) return pf;
         f = pf; j = e;
     }
@@ -94,37 +117,38 @@ static int rs_same_slot(JanetSlot a, JanetSlot b) {
 void h_resolve(void) {
     rs_depth = nd_int();
     __CPROVER_assume(rs_depth >= 1 && rs_depth <= 3);
-    int32_t flags0[3]; int32_t envcnt0[3]; JanetEnvRef env0[3][RS_NENV]; int keep0[3][RS_NSYM];
+    int32_t flags0[3]; int32_t envcnt0[3]; int32_t env0[3][RS_NENV]; int keep0[3][RS_NSYM]; int32_t flags1[3]; int keep1[3][RS_NSYM];
     for (int i = 0; i < 3; i++) {
-        rs_sc[i].parent = i > 0 ? &rs_sc[i - 1] : (JanetScope *)0;
-        rs_sc[i].child = (i + 1 < rs_depth) ? &rs_sc[i + 1] : (JanetScope *)0;
-        rs_sc[i].flags = nd_int() & (JANET_SCOPE_FUNCTION | JANET_SCOPE_UNUSED | JANET_SCOPE_WHILE | JANET_SCOPE_CLOSURE | JANET_SCOPE_ENV | JANET_SCOPE_TOP);
-        if (i == 0) rs_sc[i].flags |= JANET_SCOPE_FUNCTION;         /* the root scope of a compilation is a function scope (janet_compile) */
-        rs_sc[i].consts = (Janet *)0; rs_sc[i].defs = (JanetFuncDef **)0;
+        rs_sc(i).parent = i > 0 ? rs_scp[i - 1] : (JanetScope *)0;
+        rs_sc(i).child = (i + 1 < rs_depth) ? rs_scp[i + 1] : (JanetScope *)0;
+        rs_sc(i).flags = nd_int() & (JANET_SCOPE_FUNCTION | JANET_SCOPE_UNUSED | JANET_SCOPE_WHILE | JANET_SCOPE_CLOSURE | JANET_SCOPE_ENV | JANET_SCOPE_TOP);
+        if (i == 0) rs_sc(i).flags |= JANET_SCOPE_FUNCTION;         /* the root scope of a compilation is a function scope (janet_compile) */
+        rs_sc(i).consts = (Janet *)0; rs_sc(i).defs = (JanetFuncDef **)0;
         /* bindings */
         int32_t ns = nd_i32(); __CPROVER_assume(ns >= 0 && ns <= RS_NSYM);
-        rs_symmem[i].cap = RS_NSYM; rs_symmem[i].cnt = ns;
+        rs_symmem(i).cap = RS_NSYM; rs_symmem(i).cnt = ns;
         for (int k = 0; k < RS_NSYM; k++) {
             int w = nd_int();
-            rs_symmem[i].data[k].sym = w == 0 ? rs_sym_a : w == 1 ? rs_sym_b : (const uint8_t *)0;      /* NULL: a binding of a block that has ended */
-            rs_symmem[i].data[k].sym2 = rs_symmem[i].data[k].sym;
-            rs_symmem[i].data[k].slot = rs_mkslot();
-            rs_symmem[i].data[k].keep = nd_int() & 1; keep0[i][k] = rs_symmem[i].data[k].keep;
-            rs_symmem[i].data[k].birth_pc = 0; rs_symmem[i].data[k].death_pc = UINT32_MAX;
+            rs_symmem(i).data[k].sym = w == 0 ? rs_sym_a : w == 1 ? rs_sym_b : (const uint8_t *)0;      /* NULL: a binding of a block that has ended */
+            rs_symmem(i).data[k].sym2 = rs_symmem(i).data[k].sym;
+            rs_symmem(i).data[k].slot = rs_mkslot();
+            rs_symmem(i).data[k].keep = nd_int() & 1; keep0[i][k] = rs_symmem(i).data[k].keep;
+            rs_symmem(i).data[k].birth_pc = 0; rs_symmem(i).data[k].death_pc = UINT32_MAX;
         }
-        rs_sc[i].syms = (ns > 0 || nd_int()) ? rs_symmem[i].data : (SymPair *)0;
+        rs_sc(i).syms = (ns > 0 || nd_int()) ? rs_symmem(i).data : (SymPair *)0;
         /* environment references that exist already (only function scopes below the root have any) */
         int32_t ne = nd_i32(); __CPROVER_assume(ne >= 0 && ne <= 2);
-        if (i == 0 || !rs_is_fn(i)) ne = 0;
-        rs_envmem[i].cap = RS_NENV; rs_envmem[i].cnt = ne; rs_env_used[i] = ne > 0;
-        rs_sc[i].envs = ne > 0 ? rs_envmem[i].data : (JanetEnvRef *)0;
-        for (int k = 0; k < RS_NENV; k++) { rs_envmem[i].data[k].envindex = nd_i32(); rs_envmem[i].data[k].scope = (JanetScope *)0; }
-        flags0[i] = rs_sc[i].flags;
+        if (i == 0 || !(rs_sc(i).flags & JANET_SCOPE_FUNCTION)) ne = 0;
+        rs_envmem(i).cap = RS_NENV; rs_envmem(i).cnt = ne; rs_env_used[i] = ne > 0;
+        rs_sc(i).envs = ne > 0 ? rs_envmem(i).data : (JanetEnvRef *)0;
+        for (int k = 0; k < RS_NENV; k++) { rs_envmem(i).data[k].envindex = nd_i32(); rs_envmem(i).data[k].scope = (JanetScope *)0; }
+        flags0[i] = rs_sc(i).flags;
     }
+    rs_snapshot();
     /* representation invariant of existing references: each designates a frame (Env defined) */
     for (int i = 1; i < 3; i++) for (int k = 0; k < 2; k++) if (i < rs_depth && k < rs_envcount(i)) __CPROVER_assume(rs_env_target(i, k) >= 0);
-    for (int i = 0; i < 3; i++) { envcnt0[i] = rs_envcount(i); for (int k = 0; k < RS_NENV; k++) env0[i][k] = rs_envmem[i].data[k]; }
-    rs_c.scope = &rs_sc[rs_depth - 1];
+    for (int i = 0; i < 3; i++) { envcnt0[i] = rs_envcount(i); for (int k = 0; k < RS_NENV; k++) env0[i][k] = rs_eidx[i][k]; }
+    rs_c.scope = rs_depth == 1 ? &rs_sc0 : rs_depth == 2 ? &rs_sc1 : &rs_sc2;
     rs_c.result.status = JANET_COMPILE_OK; rs_c.lints = (JanetArray *)0; rs_c.env = (JanetTable *)0;
     rs_errors = rs_touches = rs_ext_calls = rs_missing_calls = rs_lints = 0; rs_touch_scope = (JanetScope *)0;
     /* the global environment's answer */
@@ -137,25 +161,29 @@ void h_resolve(void) {
     /* the rule: innermost scope first, in a scope the latest binding */
     int def_sc = -1, def_k = -1;
     for (int i = 2; i >= 0; i--) if (i < rs_depth && def_sc < 0)
-        for (int k = RS_NSYM - 1; k >= 0; k--) if (k < rs_symmem[i].cnt && rs_sc[i].syms != (SymPair *)0 && def_sc < 0 && rs_symmem[i].data[k].sym == rs_sym_a) { def_sc = i; def_k = k; }
+        for (int k = RS_NSYM - 1; k >= 0; k--) if (k < rs_symmem(i).cnt && rs_sc(i).syms != (SymPair *)0 && def_sc < 0 && rs_symmem(i).data[k].sym == rs_sym_a) { def_sc = i; def_k = k; }
     int crossed = 0, unused = 0;
-    for (int i = 0; i < 3; i++) if (i < rs_depth && def_sc >= 0 && i >= def_sc) { if (rs_sc[i].flags & JANET_SCOPE_UNUSED) unused = 1; if (i > def_sc && rs_is_fn(i)) crossed = 1; }
+    for (int i = 0; i < 3; i++) if (i < rs_depth && def_sc >= 0 && i >= def_sc) { if (rs_sc(i).flags & JANET_SCOPE_UNUSED) unused = 1; if (i > def_sc && rs_fn[i]) crossed = 1; }
+    rs_fdef_expected = def_sc < 0 ? -1 : rs_fn_of(def_sc);
+    JanetSlot bound; { int found = 0; for (int i = 0; i < 3; i++) for (int k = 0; k < RS_NSYM; k++) if (i == def_sc && k == def_k) { bound = rs_symmem(i).data[k].slot; found = 1; } if (!found) bound = rs_mkslot(); }
 
     JanetSlot ret = janetc_resolve(&rs_c, rs_sym_a);
 
+    rs_snapshot();
+    for (int i = 0; i < 3; i++) { flags1[i] = rs_sc(i).flags; for (int k = 0; k < RS_NSYM; k++) keep1[i][k] = rs_symmem(i).data[k].keep; }
     int err = rs_c.result.status == JANET_COMPILE_ERROR;
     int32_t g = nd_i32(), gk = nd_i32();
     __CPROVER_assume(g >= 0 && g < rs_depth && gk >= 0 && gk < RS_NENV);
     /* frame, always: existing references are stable, block scopes never get references, bindings are not rewritten */
     __CPROVER_assert(rs_envcount(g) >= envcnt0[g], "comp.resolve: environment references are only ever appended");
-    __CPROVER_assert(gk >= envcnt0[g] || (rs_sc[g].envs[gk].envindex == env0[g][gk].envindex), "comp.resolve: existing environment references keep their index and meaning");
+    __CPROVER_assert(gk >= envcnt0[g] || (rs_eidx[g][gk] == env0[g][gk]), "comp.resolve: existing environment references keep their index and meaning");
     __CPROVER_assert(rs_is_fn(g) || rs_envcount(g) == 0, "comp.resolve: only function scopes reference environments");
-    __CPROVER_assert((rs_sc[g].flags & ~JANET_SCOPE_ENV) == (flags0[g] & ~JANET_SCOPE_ENV), "comp.resolve: no other scope flag changes");
+    __CPROVER_assert((flags1[g] & ~JANET_SCOPE_ENV) == (flags0[g] & ~JANET_SCOPE_ENV), "comp.resolve: no other scope flag changes");
 
     if (def_sc < 0) {
         /* not lexically bound: the global of that name */
         __CPROVER_assert(rs_ext_calls == 1, "comp.resolve: an unbound symbol is looked up in the environment");
-        __CPROVER_assert(rs_envcount(g) == envcnt0[g] && rs_sc[g].flags == flags0[g] && rs_touches == 0, "comp.resolve: resolving a global changes no scope");
+        __CPROVER_assert(rs_envcount(g) == envcnt0[g] && flags1[g] == flags0[g] && rs_touches == 0, "comp.resolve: resolving a global changes no scope");
         JanetBinding b = rs_binding;
         if (b.type == JANET_BINDING_NONE && rs_handler.type == JANET_FUNCTION && rs_missing_answer) b = rs_missing_binding;
         if (b.type == JANET_BINDING_NONE) {
@@ -176,11 +204,10 @@ void h_resolve(void) {
         }
         return;
     }
-    JanetSlot bound = rs_symmem[def_sc].data[def_k].slot;
     __CPROVER_assert(!err && rs_ext_calls == 0, "comp.resolve: a lexically bound symbol never consults the environment (shadowing)");
     if (bound.flags & (JANET_SLOT_CONSTANT | JANET_SLOT_REF)) {
         __CPROVER_assert(rs_same_slot(ret, bound), "comp.resolve: a constant or reference binding is the same in every context");
-        __CPROVER_assert(rs_envcount(g) == envcnt0[g] && rs_sc[g].flags == flags0[g] && rs_touches == 0, "comp.resolve: ... and captures nothing");
+        __CPROVER_assert(rs_envcount(g) == envcnt0[g] && flags1[g] == flags0[g] && rs_touches == 0, "comp.resolve: ... and captures nothing");
         REACH("resolve: constant binding");
         return;
     }
@@ -188,7 +215,7 @@ void h_resolve(void) {
     if (def_sc < rs_depth - 1) REACH("resolve: binding of an outer scope");
     if (!crossed || unused) {
         __CPROVER_assert(ret.envindex == -1, "comp.resolve: a binding of the same function is a register of the frame");
-        __CPROVER_assert(rs_envcount(g) == envcnt0[g] && rs_sc[g].flags == flags0[g] && rs_touches == 0 && rs_symmem[def_sc].data[def_k].keep == keep0[def_sc][def_k],
+        __CPROVER_assert(rs_envcount(g) == envcnt0[g] && flags1[g] == flags0[g] && rs_touches == 0 && keep1[def_sc][def_k] == keep0[def_sc][def_k],
                          "comp.resolve: a local (or dead-code) reference captures nothing");
         if (crossed) REACH("resolve: dead code does not capture"); else REACH("resolve: local");
         return;
@@ -198,12 +225,16 @@ void h_resolve(void) {
     __CPROVER_assert(fdef >= 0 && fcur > fdef, "harness: function scopes");
     __CPROVER_assert(ret.envindex >= 0 && ret.envindex < rs_envcount(fcur), "comp.resolve: a binding of an enclosing function is an upvalue of the current function");
     __CPROVER_assert(rs_env_target(fcur, ret.envindex) == fdef, "comp.resolve: at run time the named environment is the frame of the function that holds the binding");
-    __CPROVER_assert(rs_sc[fdef].flags & JANET_SCOPE_ENV, "comp.resolve: the defining function is marked as having a captured frame");
-    __CPROVER_assert(rs_touches == 1 && rs_touch_scope == &rs_sc[fdef] && rs_touch_reg == bound.index, "comp.resolve: the captured register is recorded in the defining function's upvalue set");
-    __CPROVER_assert(rs_symmem[def_sc].data[def_k].keep == 1, "comp.resolve: the captured binding is kept, so its register is not reused after its block ends");
-    __CPROVER_assert(g == fdef || (rs_sc[g].flags == flags0[g]), "comp.resolve: no other scope is marked");
+    __CPROVER_assert(flags1[fdef] & JANET_SCOPE_ENV, "comp.resolve: the defining function is marked as having a captured frame");
+    __CPROVER_assert(rs_touches == 1 && ((fdef == 0 && rs_touch_scope == &rs_sc0) || (fdef == 1 && rs_touch_scope == &rs_sc1)) && rs_touch_reg == bound.index, "comp.resolve: the captured register is recorded in the defining function's upvalue set");
+    __CPROVER_assert(keep1[def_sc][def_k] == 1, "comp.resolve: the captured binding is kept, so its register is not reused after its block ends");
+    __CPROVER_assert(g == fdef || (flags1[g] == flags0[g]), "comp.resolve: no other scope is marked");
     if (fcur - fdef == 2 && rs_is_fn(1)) REACH("resolve: upvalue through two function levels");
     if (envcnt0[fcur] > 0 && rs_envcount(fcur) == envcnt0[fcur]) REACH("resolve: existing environment reference reused");
+#ifdef RS_UPVALUE_RANGE
+    /* JOP_LOAD_UPVALUE / JOP_SET_UPVALUE address the environment and the register with 8 bits each (vm.c: B, C) */
+    __CPROVER_assert(ret.index <= 0xFF && ret.envindex <= 0xFF, "comp.resolve: an upvalue slot is addressable by LOAD_UPVALUE / SET_UPVALUE (register and environment fit 8 bits), or the compiler reports an error");
+#endif
     if (ret.index > 0xFF) REACH("resolve: captured register beyond 255");
     REACH("resolve: upvalue");
 }
